@@ -289,3 +289,94 @@ def aliasdeps(repo):
     res.samples = [f"{rec.name}: first component only = {first_only}; two-component aliases synthesised = {two}"]
     res.analysed = [DC, "compiler/front_end/synthetics.py"]
     return res
+
+
+def _eval_guard(test, binding):
+    """Evaluates a boolean guard over attribute chains bound to constants (or raises ValueError)."""
+    if isinstance(test, ast.BoolOp):
+        vals = [_eval_guard(v, binding) for v in test.values]
+        if isinstance(test.op, ast.Or):
+            for v in vals:
+                if v:
+                    return v
+            return vals[-1]
+        for v in vals:
+            if not v:
+                return v
+        return vals[-1]
+    if isinstance(test, ast.UnaryOp) and isinstance(test.op, ast.Not):
+        return not _eval_guard(test.operand, binding)
+    if isinstance(test, ast.Compare) and len(test.ops) == 1:
+        a, b = _eval_guard(test.left, binding), _eval_guard(test.comparators[0], binding)
+        op = test.ops[0]
+        if isinstance(op, ast.Eq):
+            return a == b
+        if isinstance(op, ast.NotEq):
+            return a != b
+        if isinstance(op, ast.In):
+            return a in b
+        if isinstance(op, ast.NotIn):
+            return a not in b
+        raise ValueError(ast.unparse(test))
+    if isinstance(test, ast.Constant):
+        return test.value
+    if isinstance(test, (ast.Tuple, ast.List, ast.Set)):
+        return [_eval_guard(e, binding) for e in test.elts]
+    src = ast.unparse(test)
+    if src in binding:
+        return binding[src]
+    raise ValueError(src)
+
+
+def selfimport(repo):
+    """R-SELFIMPORT (C15): the module import graph keeps an edge for every import except the prelude's automatic
+    import of itself (both names empty).  The guard in front of the edge insertion is evaluated for the three
+    relevant situations — an ordinary import, a module importing its own file, the prelude's self-import — with
+    the two file names bound to constants; a self-import of a real module must produce an edge, or a module
+    importing itself is not reported as a cycle."""
+    res = RuleResult("R-SELFIMPORT")
+    m = repo.mod(DC)
+    target = None
+    for f in m.top_funcs():
+        for n in walk_no_nested_funcs(f.node):
+            if isinstance(n, ast.For) and ast.unparse(n.iter).endswith(".foreign_import"):
+                target = (f, n)
+    if target is None:
+        raise AnalysisError("dependency_checker: the loop over foreign_import was not found")
+    f, loop = target
+    imp = loop.target.id
+    # the module variable of the enclosing loop
+    outer = next((n for n in walk_no_nested_funcs(f.node) if isinstance(n, ast.For) and loop in ast.walk(n) and n is not loop), None)
+    mod = outer.target.id if outer is not None and isinstance(outer.target, ast.Name) else "module"
+    inserts = []
+
+    def visit(stmts, guards):
+        for st in stmts:
+            if isinstance(st, ast.If):
+                visit(st.body, guards + [(st.test, True)])
+                visit(st.orelse, guards + [(st.test, False)])
+            elif isinstance(st, (ast.AugAssign, ast.Expr, ast.Assign)) and imp in {x.id for x in ast.walk(st) if isinstance(x, ast.Name)}:
+                inserts.append((st, guards))
+    visit(loop.body, [])
+    if not inserts:
+        raise AnalysisError(f"{f.name}: no statement records the imported file")
+    cases = {
+        "ordinary import": {f"{imp}.file_name.text": "other.emb", f"{mod}.source_file_name": "m.emb"},
+        "module importing itself": {f"{imp}.file_name.text": "m.emb", f"{mod}.source_file_name": "m.emb"},
+    }
+    for label, binding in cases.items():
+        res.instances += 1
+        reached = False
+        for st, guards in inserts:
+            try:
+                if all(bool(_eval_guard(t, binding)) == want for t, want in guards):
+                    reached = True
+            except ValueError as e:
+                raise AnalysisError(f"{f.name}: guard `{e}` is not a test of the two file names")
+        if not reached:
+            res.add(f"{DC}|{f.name}|{label.replace(' ', '-')}", f"{f.name}: for the case '{label}' no edge is added to the import graph: "
+                    + ("a module whose import list names its own file is not reported as an import cycle" if "itself" in label
+                       else "imports are dropped from the graph and import cycles go unreported"), DC, loop.lineno, f.name)
+    res.samples = [f"{f.name}: edge inserted for ordinary imports and for self-imports of real modules"]
+    res.analysed = [DC]
+    return res
